@@ -84,7 +84,7 @@ def random_case(draw):
     case = make_case(n, edges, atom, rng, draw(st.sampled_from(["measured", "random"])))
     case["graph"] = kind
     case["mem"] = draw(st.sampled_from(gen.ARRAY_LAYOUTS))
-    case["reuse"] = draw(st.sampled_from([None, None, "rescaled", "other-tree"]))
+    case["reuse"] = draw(st.sampled_from([None, None, "rescaled", "other-tree", "after-error", "after-error"]))
     return case
 
 
@@ -95,7 +95,21 @@ def check_move(case):
     displ = np.array(case["displ"], float)
     displ_before = displ.copy()
     tab = bond_table(n, edges, case["lengths"])
-    if case.get("reuse") and n > 1:
+    if case.get("reuse") == "after-error" and n > 1:
+        # error-then-continue: a call that raises part-way (a displacement with two components, a bond table that lacks
+        # an atom it reaches), caught by the caller, then the valid call on a molecule of the same size
+        other_atom = (atom + 1 + int(abs(displ[0]) * 1e6)) % n
+        for bad in ("short-displacement", "incomplete-table"):
+            try:
+                with env.quiet():
+                    if bad == "short-displacement":
+                        gaddlemaps.move_mol_atom(pos.copy(), tab, other_atom, displ[:2].copy())
+                    else:
+                        holes = {i: lst for i, lst in tab.items() if i % 2 == 0 or i == other_atom}
+                        gaddlemaps.move_mol_atom(pos.copy(), holes, other_atom, displ.copy())
+            except Exception:      # noqa: BLE001
+                pass
+    elif case.get("reuse") and n > 1:
         # the caller keeps ONE bond-table dict and updates it in place between calls (same object, new contents)
         real = tab
         if case["reuse"] == "rescaled":
